@@ -545,6 +545,49 @@ def oracle_ancillaries(ctx):
     return lines, expect
 
 
+_USE_CURVE = []
+
+
+def usable_oracle(ctx, label, key, m):
+    from nanite import model
+    import curves
+    if not _USE_CURVE:
+        c_ = curves.synth(n_app=120, n_ret=60, noise=1e-11, seed=5)
+        with warnings.catch_warnings():
+            warnings.simplefilter("ignore")
+            c_.apply_preprocessing(["compute_tip_position", "correct_tip_offset"])
+        _USE_CURVE.append(c_)
+    idnt = _USE_CURVE[0]
+    bad = []
+    with warnings.catch_warnings():
+        warnings.simplefilter("ignore")
+        try:
+            akeys = list(model.get_anc_parm_keys(key))
+        except BaseException as e:  # noqa
+            akeys = []
+            bad.append(f"get_anc_parm_keys raises {type(e).__name__}: {e}")
+        for ak in akeys:
+            for fn_ in (model.get_parm_name, model.get_parm_unit):
+                try:
+                    fn_(key, ak)
+                except BaseException as e:  # noqa
+                    bad.append(f"{fn_.__name__}({ak!r}) raises {type(e).__name__}: {e}")
+        try:
+            anc = model.compute_anc_parms(idnt, key)
+            missing = [ak for ak in akeys if ak not in anc]
+            if missing:
+                bad.append(f"compute_anc_parms lacks the advertised keys {missing}")
+        except BaseException as e:  # noqa
+            # (a compute_ancillaries function of the module may fail by itself - that is the module's business;
+            # a failure inside the library's own dispatch is not)
+            if not hasattr(m, "compute_ancillaries") or type(e).__name__ in ("AttributeError",):
+                bad.append(f"compute_anc_parms raises {type(e).__name__}: {e}")
+    if bad:
+        ctx.violation("accepted-model-unusable:" + label.split(" + ")[0],
+                      f"mutant '{label}' was registered, but " + "; ".join(bad[:3]),
+                      {"input": {"mutant": label, "desc": describe(m)}, "observed": bad})
+
+
 def run(ctx):
     global SHIPPED
     ctx.trusted = TRUST_COMMON + [
@@ -610,6 +653,9 @@ def run(ctx):
                 lines.append({"op": "entry", "key": key})
                 impl_out.append(impl_entry(key))
                 labels.append("entry " + label)
+                # "accepts only complete, consistent models": what was accepted can be used - the ancillary keys it
+                # advertises can be named and computed, the initial parameters obtained
+                usable_oracle(ctx, label, key, m)
                 model.models_available.pop(key, None)
         # (b) sequences
         l2, o2, d2 = run_sequences(ctx, 60 if ctx.tier == "quick" else 1200, tdir)
